@@ -504,6 +504,10 @@ func FactsFromIntent(in *Intent) *Facts {
 		for _, ep := range a.Eps {
 			ef := &EpF{Long: ep.Long, Meta: cloneMetaFacts(ep.Meta), Params: factParams(ep.Params), Stmts: factStmts(ep.Stmts)}
 			ef.Pubsub = ep.Kind == "event"
+			if ep.Kind == "event" {
+				// the statements of an event join the calls that subscriptions add in walk order (below)
+				ef.Stmts = nil
+			}
 			if af.Eps == nil {
 				af.Eps = map[string]*EpF{}
 			}
@@ -523,6 +527,11 @@ func FactsFromIntent(in *Intent) *Facts {
 	// appends a call back to S's subscriber endpoint, in walk order (lang-spec: pubsub).
 	for _, a := range in.Apps {
 		for _, ep := range a.Eps {
+			if ep.Kind == "event" {
+				ev := f.Apps[appKey(a.Name)].Eps[ep.Name]
+				ev.Stmts = append(ev.Stmts, factStmts(ep.Stmts)...)
+				continue
+			}
 			if ep.Kind != "sub" {
 				continue
 			}
